@@ -109,9 +109,14 @@ def finish(prop, tier, seed, mod, results, herrs, wall, known, extra_lines=()):
             key = f"{k['check']} {k['sig']}"
             if known_hits.get(key):
                 print(f"KNOWN-FINDING: property={prop} {k['what']} [{key}; seen in {known_hits[key]} run(s)]")
-    core.write_evidence(prop, tier, seed, mod.LEVEL, results, wall, mod.META, len(viols), dict(known_hits))
     n = len(results)
     nt = len({(r["family"], r["digest"]) for r in results if r["nontrivial"]})
+    if rc == 0 and nt < 2:
+        # a clean exit that explored nothing is not a result (every configuration skipped, every
+        # fault missed ...): never exit 0 on it
+        print(f"HARNESS-ERROR property={prop}: {n} runs but only {nt} distinct non-trivial one(s): nothing was really explored")
+        return 2
+    core.write_evidence(prop, tier, seed, mod.LEVEL, results, wall, mod.META, len(viols), dict(known_hits))
     print(f"[dst] {n} runs, {nt} distinct non-trivial, {wall:.1f}s, violations={len(viols)}")
     for l in list(extra_lines) + lines:
         print(l)
